@@ -5,9 +5,11 @@ use crate::{
 use futures::{pin_mut, StreamExt};
 use sos_backend::BackendTarget;
 use sos_core::{
-    commit::CommitHash, events::EventRecord, AccountId, SecretId, VaultId,
+    commit::CommitHash,
+    events::{EventLogType, EventRecord},
+    AccountId, SecretId, VaultId,
 };
-use sos_database::entity::FolderEntity;
+use sos_database::entity::{EventEntity, FolderEntity};
 use sos_vault::Summary;
 use sos_vfs as vfs;
 use std::sync::Arc;
@@ -158,14 +160,26 @@ async fn check_folder(
         }
         BackendTarget::Database(_, client) => {
             let db_folder_id = folder_id;
-            let folder_row = client
-                .conn(move |conn| {
+            // A folder needs a row and an event log; every folder
+            // event log holds at least the event that created the vault
+            let folder_exists = client
+                .conn_and_then(move |conn| {
                     let folder_entity = FolderEntity::new(&conn);
-                    folder_entity.find_optional(&db_folder_id)
+                    let Some(folder_row) =
+                        folder_entity.find_optional(&db_folder_id)?
+                    else {
+                        return Ok::<_, sos_database::Error>(false);
+                    };
+                    let event_entity = EventEntity::new(&conn);
+                    let commits = event_entity.load_commits(
+                        EventLogType::Folder(db_folder_id),
+                        folder_row.row_id,
+                    )?;
+                    Ok(!commits.is_empty())
                 })
                 .await?;
 
-            if folder_row.is_none() {
+            if !folder_exists {
                 notify_listeners(
                     &mut vault_tx,
                     FolderIntegrityEvent::Failure(
